@@ -85,7 +85,11 @@ Wave(w, width, ph, sc) ==
   CASE w = "saw"   -> ((ph + sc \div 2) % sc) * 2 - sc
     [] w = "tri"   -> Abs(((ph + (3 * sc) \div 4) % sc) - sc \div 2) * 4 - sc
     [] w = "pulse" -> IF ph < width THEN sc ELSE -sc
-    [] OTHER       -> 0    \* sine: see SineOK
+    [] OTHER       -> 0    \* sine: see LfoBad
+\* the statement does not say which of the two values a jump takes at the very instant of the jump
+WaveSet(w, width, ph, sc) ==
+  IF (w = "saw" /\ ph = sc \div 2) \/ (w = "pulse" /\ (ph = width \/ ph = 0)) THEN {sc, -sc}
+  ELSE {Wave(w, width, ph, sc)}
 
 PInit(buf, sc, tol) ==
   [ buf  |-> buf, sc |-> sc, tol |-> tol,
@@ -136,9 +140,7 @@ LfoStep(st, e, m) ==
       adv == e.n * fr
       exact == l.exact /\ st.tol = 0 /\ fr >= 0 /\ adv % 8 = 0
       ph == IF exact THEN (l.ph + adv \div 8) % sc ELSE l.ph
-      w == Wave(c.wave, c.width, ph, sc)
-  IN [fr |-> fr, am |-> am, of |-> of, free |-> free, exact |-> exact, ph |-> ph,
-      exp |-> of + (am * w) \div sc, rem |-> (am * w) % sc]
+  IN [fr |-> fr, am |-> am, of |-> of, free |-> free, exact |-> exact, ph |-> ph]
 
 LfoBad(st, e, m) ==
   LET c == st.mc[m]  l == st.lf[m]  s == LfoStep(st, e, m)  v == MV(e, m)  sc == st.sc IN
@@ -146,7 +148,9 @@ LfoBad(st, e, m) ==
   ELSE IF ~Near(v, s.of, Abs(s.am) + 2 * st.tol + (IF st.tol = 0 THEN 0 ELSE 1)) THEN "lfo_within_offset_plus_minus_amplitude"
   ELSE IF ~s.exact THEN ""
   ELSE IF c.wave # "sine" THEN
-         (IF Near(v, s.exp, IF s.rem = 0 THEN 0 ELSE 1) THEN "" ELSE "lfo_follows_waveform")
+         (IF \E w \in WaveSet(c.wave, c.width, s.ph, sc) :
+                Near(v, s.of + (s.am * w) \div sc, IF (s.am * w) % sc = 0 THEN 0 ELSE 1)
+          THEN "" ELSE "lfo_follows_waveform")
   ELSE IF s.ph % (sc \div 4) = 0 /\ ~Near(v, s.of + s.am * (CASE s.ph = sc \div 4 -> 1 [] s.ph = 3 * (sc \div 4) -> -1 [] OTHER -> 0), 1)
          THEN "lfo_sine_cardinal_points"
   ELSE IF l.sok /\ c.am.k = "fix" /\ c.of.k = "fix" /\ s.ph = (l.sph + sc \div 2) % sc /\ ~Near((v - s.of) + l.sdev, 0, 2)
